@@ -11,7 +11,11 @@ subprocess.run(["git", "-C", "/repo", "apply", patch], check=True)
 out = {}
 try:
     for p in props:
+        ev = os.path.join(V, "evidence", p + ".json")
+        keep = open(ev).read() if os.path.exists(ev) else None      # the evidence of the unchanged tree stays
         r = subprocess.run([os.path.join(V, "check"), p, tier], capture_output=True, text=True)
+        if keep is not None:
+            open(ev, "w").write(keep)
         viol = [l for l in r.stdout.splitlines() if l.startswith("VIOLATION")]
         last = r.stdout.strip().splitlines()[-1] if r.stdout.strip() else ""
         out[p] = {"exit": r.returncode, "violation": viol[:3], "summary": last[:400]}
